@@ -71,6 +71,45 @@ MAILDIR_WITNESSES = {
         ('cmd', 1, ('check',)),
         ('cmd', 2, ('fetch', [(1, '*')], False, True, False)),
     ]),
+    # seeded/C02-7 (no defect on the current tree): the selected folder becomes completely
+    # empty (every message expunged or moved away by the other connection); the rescan of
+    # update_selected must report the last removals too
+    'folder_becomes_empty': (2, [
+        ('cmd', 1, ('select', 1, False)),
+        ('cmd', 1, ('fetch', [(1, '*')], False, True, False)),
+        ('cmd', 2, ('select', 1, False)),
+        ('cmd', 2, ('fetch', [(1, '*')], False, True, False)),
+        ('cmd', 2, ('move', [1], False, 2, None)),
+        ('cmd', 1, ('noop',)),
+        ('cmd', 2, ('store', [(1, '*')], False, 'add', [2], True)),
+        ('cmd', 2, ('expunge', None)),
+        ('cmd', 1, ('noop',)),
+        ('cmd', 1, ('check',)),
+        ('cmd', 2, ('noop',)),
+        ('cmd', 1, ('fetch', [(1, '*')], False, True, False)),
+    ]),
+    # seeded/C01-6 (no defect on the current tree): a message that is not the last one is
+    # moved to another folder and later moved back, with no housekeeping of the first folder
+    # in between: it must come back under a new UID at the end, the expunged UID stays dead
+    'moved_away_and_back': (2, [
+        ('cmd', 1, ('select', 1, False)),
+        ('cmd', 1, ('fetch', [(1, '*')], False, True, False)),
+        ('cmd', 2, ('select', 1, False)),
+        ('cmd', 2, ('move', [1], False, 2, None)),
+        ('cmd', 1, ('noop',)),
+        ('cmd', 2, ('select', 2, False)),
+        ('cmd', 2, ('fetch', [(1, '*')], False, True, False)),
+        ('cmd', 2, ('move', ['*'], False, 1, None)),
+        ('cmd', 1, ('noop',)),
+        ('cmd', 1, ('fetch', [(1, '*')], False, True, False)),
+        ('cmd', 2, ('select', 1, False)),
+        ('cmd', 2, ('fetch', [(1, '*')], False, True, False)),
+        ('cmd', 2, ('move', [2], False, 2, None)),
+        ('cmd', 2, ('select', 2, False)),
+        ('cmd', 2, ('move', [(1, '*')], False, 1, None)),
+        ('cmd', 1, ('noop',)),
+        ('cmd', 1, ('fetch', [(1, '*')], False, True, False)),
+    ]),
 }
 
 
@@ -271,6 +310,118 @@ def section_witnesses(ctx, clauses, witnesses) -> None:
     return SC.CaseEval(ctx, 'store_witnesses', traces)
 
 
+LEARN = ('fetch', [(1, '*')], False, True, False)
+
+# namespace witnesses (harness/store_ns.py; names: 1 INBOX, 2 Sent, 3 Trash (read-only), 4 Box4,
+# 5 Box5): label lists replayed on every run with the namespace monitors and compared with
+# Store/SystemNs.nstep step by step
+NS_WITNESSES = {
+    # fixed by 5efe902: STORE .SILENT refused with NO [NONEXISTENT] (mailbox renamed away) left
+    # its silenced flags on the selection; after the mailbox was renamed back the next NOOP
+    # swallowed session 2's \\Flagged (found by the converge_flags monitor of this family)
+    'silenced_flags_survive_refused_store': (2, [
+        ('cmd', 1, ('select', 2, False)), ('cmd', 1, LEARN),
+        ('rename', 2, 2, 4),
+        ('cmd', 1, ('store', [1], False, 'add', [4], True)),
+        ('rename', 2, 4, 2),
+        ('cmd', 2, ('select', 2, False)),
+        ('cmd', 2, ('store', [1], False, 'add', [4], False)),
+    ]),
+    # DELETE + CREATE of the same name: the selection must not be attached to the new mailbox
+    'recreated_mailbox_is_not_the_selected_one': (2, [
+        ('cmd', 1, ('select', 2, False)), ('cmd', 1, LEARN),
+        ('delete', 2, 2), ('create', 2, 2),
+        ('cmd', 2, ('append', 2, [([5], 50)], None)),
+        ('cmd', 1, ('noop',)), ('cmd', 1, ('fetch', [(1, '*')], False, False, False)),
+        ('cmd', 1, ('store', [1], False, 'add', [2], False)),
+        ('cmd', 1, ('expunge', None)), ('cmd', 1, ('copy', [1], False, 1, None)),
+        ('cmd', 1, ('check',)), ('cmd', 1, ('touch',)),
+    ]),
+    # RENAME INBOX moves the messages and leaves a fresh INBOX: three selections of INBOX
+    'rename_inbox_under_selections': (3, [
+        ('cmd', 1, ('select', 1, False)), ('cmd', 1, LEARN),
+        ('cmd', 2, ('select', 1, True)), ('cmd', 2, LEARN),
+        ('cmd', 3, ('select', 1, False)),
+        ('rename', 3, 1, 4),
+        ('cmd', 3, ('noop',)),
+        ('cmd', 1, ('append', 1, [([], 51)], None)),
+        ('cmd', 2, ('idle',)), ('done', 2),
+        ('cmd', 2, ('search', False, None, [])),
+        ('cmd', 2, ('close',)),
+        ('cmd', 2, ('select', 1, False)), ('cmd', 2, LEARN),
+        ('cmd', 3, ('close',)), ('cmd', 3, ('select', 4, False)), ('cmd', 3, LEARN),
+    ]),
+    # renamed away and back: NO in between, then the selection is live again
+    'rename_back_resumes': (2, [
+        ('cmd', 1, ('select', 2, False)), ('cmd', 1, LEARN),
+        ('rename', 2, 2, 5),
+        ('cmd', 1, ('noop',)),
+        ('cmd', 2, ('append', 5, [([4], 52)], None)),
+        ('rename', 2, 5, 2),
+        ('cmd', 1, ('noop',)),
+    ]),
+    'delete_by_the_selecting_connection': (2, [
+        ('cmd', 1, ('select', 2, False)), ('cmd', 2, ('select', 2, True)),
+        ('delete', 1, 2),
+        ('cmd', 2, ('touch',)),
+    ]),
+    # the path of the open finding C10-F4, as the code has it (and the model): APPEND into the
+    # renamed object still synchronises the stale selection through the mailbox id
+    'append_through_renamed_object': (2, [
+        ('cmd', 1, ('select', 1, True)), ('cmd', 1, LEARN),
+        ('cmd', 2, ('select', 1, False)),
+        ('rename', 1, 1, 5),
+        ('cmd', 1, ('append', 5, [([5], 53)], None)),
+        ('cmd', 2, ('append', 5, [([], 54)], None)),
+        ('cmd', 1, ('noop',)),
+        ('create', 2, 4), ('rename', 1, 4, 1), ('delete', 1, 1), ('create', 1, 5),
+    ]),
+}
+
+NS_WEIGHTS = {'append': 9, 'store': 12, 'expunge': 8, 'uidexpunge': 3, 'copy': 5, 'move': 6,
+              'fetch': 10, 'search': 5, 'noop': 8, 'check': 3, 'touch': 4, 'close': 2,
+              'idle': 3, 'select': 7, 'deliver': 2}
+
+
+def section_namespace(ctx, clauses):
+    """CREATE / DELETE / RENAME by any connection on any mailbox mixed into the multi-session
+    traces (dict backend): namespace monitors + per-step comparison with Store/SystemNs.nstep."""
+    from .. import store_ns as NS
+    traces = []
+    hist: dict = {}
+    stats = {'bye': 0, 'commands_on_stale_selection': 0, 'checkpoints': 0, 'views_compared_with_probe': 0}
+
+    def book(name, trace, mon, meta):
+        NS.report(ctx, name, trace, mon, clauses, meta)
+        traces.append(trace)
+        stats['bye'] += mon.n_bye
+        stats['commands_on_stale_selection'] += mon.n_stale_cmds
+        stats['checkpoints'] += mon.n_checkpoints
+        stats['views_compared_with_probe'] += mon.n_compared
+        for lab, resp, _ in trace.steps:
+            kind = lab[2][0] if lab[0] == 'cmd' else lab[0]
+            hist[kind] = hist.get(kind, 0) + 1
+            ctx.count(('ns', kind, repr(lab), repr(resp)),
+                      nontrivial=any(r[0] in ('expunge', 'exists', 'fetch', 'bye') for r in resp)
+                      or lab[0] in NS.NS_KINDS)
+    for name, (nsess, labels) in NS_WITNESSES.items():
+        trace, mon = SC.run_sync(NS.ns_fixed_trace(labels, nsess=nsess))
+        book('ns-witness:' + name, trace, mon, {'nsess': nsess})
+    for i in range(ctx.scale(40, 320)):
+        rng = random.Random(f'{ctx.prop}-{ctx.seed}-ns-{i}')
+        nsess = rng.randint(2, 4)
+        trace, mon = SC.run_sync(NS.ns_random_trace(
+            rng, nsess=nsess, nsteps=rng.randint(10, 28), idle=rng.random() < 0.5,
+            weights=NS_WEIGHTS, checkpoint_every=rng.choice([3, 4, 6]),
+            p_ns=rng.choice([0.15, 0.25, 0.35]),
+            readonly_sessions=(2,) if rng.random() < 0.3 else ()))
+        book('ns-random', trace, mon, {'nsess': nsess, 'trace': i})
+        if i < 1:
+            ctx.sample({'ns_labels': repr(trace.labels())[:1500]})
+    ctx.extra['namespace'] = {'label_histogram': hist, **stats}
+    return NS.NsEval(ctx, 'store_namespace_traces', traces)
+
+
 RULE = ('a case is one multi-session trace: 2-4 connections on the dict backend, 8-25 commands drawn '
         'state-aware from APPEND/STORE(+,-,replace,.SILENT)/EXPUNGE/UID EXPUNGE/COPY/MOVE/FETCH/SEARCH/'
         'NOOP/CHECK/IDLE..DONE/SELECT/EXAMINE with sequence sets biased to `*`, the last message, one '
@@ -297,9 +448,11 @@ ASSUMPTIONS = [
 def run(ctx) -> None:
     ctx.rule = RULE
     ctx.assumptions += ASSUMPTIONS
-    ctx.check_proofs(['Store/StoreCheck'])
+    ctx.check_proofs(['Store/StoreCheck', 'Store/NsCheck'])
     clauses = SC.C01_CLAUSES
-    evals = [section_witnesses(ctx, clauses, WITNESSES), section_random(ctx, clauses)]
+    from .. import store_ns as NS
+    evals = [section_namespace(ctx, NS.C01_NS_CLAUSES)]
+    evals += [section_witnesses(ctx, clauses, WITNESSES), section_random(ctx, clauses)]
     evals += section_exhaustive(ctx, clauses)
     evals += section_maildir(ctx, clauses, WITNESSES)
     section_windows(ctx, clauses)
@@ -308,6 +461,17 @@ def run(ctx) -> None:
 
 
 def replay(ctx, obj) -> int:
+    if obj.get('ns_labels'):
+        from .. import store_ns as NS
+        labels = SC.labels_parse(obj['ns_labels'])
+        nsess = obj.get('nsess') or max([l[1] for l in labels if l[0] != 'deliver'] + [1])
+        trace, mon = SC.run_sync(NS.ns_fixed_trace(labels, nsess=nsess))
+        for j, (lab, resp, _o) in enumerate(trace.steps):
+            print(j, lab, '\n     ', resp)
+        bad = [f for f in mon.failures if f['clause'] == obj.get('clause', f['clause'])]
+        for f in mon.failures:
+            print('FAILURE', f['clause'], f['what'])
+        return 1 if bad else 0
     labels = SC.labels_parse(obj['labels'])
     nsess = obj.get('nsess') or max([l[1] for l in labels if l[0] in ('cmd', 'wake', 'done')] + [1])
     if obj.get('window'):
